@@ -11,7 +11,7 @@ let pos_of_bits (bits : bool list) : positive =
   | _ :: rest -> Stdlib.List.fold_left (fun p b -> if b then Coq_xI p else Coq_xO p) Coq_xH rest
 
 let z_of_hex (s : string) : coq_Z =
-  let neg, s = if Stdlib.String.length s > 0 && s.[0] = '-' then true, Stdlib.String.sub s 1 (Stdlib.String.length s - 1) else false, s in
+  let neg, s = if Stdlib.String.length s > 0 && Stdlib.String.get s 0 = '-' then true, Stdlib.String.sub s 1 (Stdlib.String.length s - 1) else false, s in
   let bits = ref [] in
   Stdlib.String.iter (fun c ->
     let d = match c with
@@ -37,7 +37,7 @@ let hex_of_pos p =
       let take n l = let rec t n l a = if n = 0 then (Stdlib.List.rev a, l) else match l with [] -> (Stdlib.List.rev a, []) | x :: r -> t (n-1) r (x :: a) in t n l [] in
       let (d, rest) = take 4 bits in
       let v = Stdlib.List.fold_right (fun b a -> 2 * a + (if b then 1 else 0)) d 0 in
-      go rest (Stdlib.String.make 1 "0123456789abcdef".[v] ^ acc) in
+      go rest (Stdlib.String.make 1 (Stdlib.String.get "0123456789abcdef" v) ^ acc) in
   go (bits_of_pos p) ""
 
 let hex_of_z = function Z0 -> "0" | Zpos p -> hex_of_pos p | Zneg p -> "-" ^ hex_of_pos p
